@@ -517,7 +517,7 @@ Proof.
   inversion S; subst. clear S. rewrite gc_clients.
   assert (Hheld : is_held srv = true) by (unfold is_held; rewrite Hh; reflexivity).
   assert (G : cl_lookup c (clients w1) = Some x /\ In srv (servers w1)).
-  { destruct o as [fo|c0 d u|c0|c0|c0|c0 ms|k|k|c0]; cbn [step0 actor] in *.
+  { destruct o as [fo|c0 d u|c0|c0|c0|c0 ms|k|k|c0|k bi]; cbn [step0 actor] in *.
     - destruct (reload hashf (st w) fo (next_pool w)) as [[[s' r] n'] new]. inversion S0; subst. cbn. auto.
     - assert (c <> c0) by congruence.
       destruct (cl_lookup c0 (clients w)); [inversion S0; subst; auto|].
@@ -559,7 +559,8 @@ Proof.
       destruct (negb (existsb (Nat.eqb c0) (waiting w))); [inversion S0; subst; auto|].
       destruct (existsb (key_eqb (cdb y, cuser y)) (paused w)); [inversion S0; subst; auto|].
       destruct (do_begin_others _ _ _ _ _ c S0 H) as [E1 [E2 _]]. cbn [unwait clients servers] in E1, E2.
-      rewrite E1. split; auto. }
+      rewrite E1. split; auto.
+    - destruct (plookup k (pools (st w))) as [[h p]|]; inversion S0; subst; auto. }
   destruct G as [G1 G2]. split; auto. apply gc_keeps_held; assumption.
 Qed.
 
@@ -579,7 +580,7 @@ Qed.
 Lemma inflight_end : forall w c x s srv,
   cl_lookup c (clients w) = Some x -> cheld x = Some s -> In srv (servers w) -> sholder srv = Some c ->
   exists w', step hashf w (OEnd c) = (w', ObEnded) /\
-             cl_lookup c (clients w') = Some {| cdb := cdb x; cuser := cuser x; cclone := cclone x; cheld := None; ctmo := ctmo x |} /\
+             cl_lookup c (clients w') = Some {| cdb := cdb x; cuser := cuser x; cclone := cclone x; cheld := None; ctmo := ctmo x; cset := cset x |} /\
              (spool srv = cclone x -> In {| sid := sid srv; spool := spool srv; sholder := None |} (servers w')).
 Proof.
   intros w c x s srv L Hh Hin Hs. unfold step. cbn [step0]. rewrite L, Hh. eexists. split; [reflexivity|].
@@ -597,7 +598,7 @@ Lemma client_step_store : forall w o w' ob, step hashf w o = (w', ob) -> actor o
 Proof.
   intros w o w' ob S A. unfold step in S. destruct (step0 hashf w o) as [w1 ob1] eqn:S0. inversion S; subst. clear S.
   rewrite gc_st, gc_objs. change (next_pool (gc w1)) with (next_pool w1). change (paused (gc w1)) with (paused w1).
-  destruct o as [fo|c0 d u|c0|c0|c0|c0 ms|k|k|c0]; cbn [step0 actor] in *; try congruence.
+  destruct o as [fo|c0 d u|c0|c0|c0|c0 ms|k|k|c0|k bi]; cbn [step0 actor] in *; try congruence.
   - destruct (cl_lookup c0 (clients w)); [inversion S0; subst; auto|].
     destruct (plookup (d, u) (pools (st w))) as [[h p]|]; [|inversion S0; subst; auto].
     destruct (existsb (Nat.eqb p) (validated w)); inversion S0; subst; auto.
@@ -635,7 +636,7 @@ Lemma begin_resolves : forall w c x,
   existsb (key_eqb (cdb x, cuser x)) (paused w) = false -> existsb (Nat.eqb c) (waiting w) = false ->
   match begin_txn (st w) (cdb x) (cuser x) with
   | Some p => exists w' s f, step hashf w (OBegin c) = (w', ObBegun p s f) /\
-                cl_lookup c (clients w') = Some {| cdb := cdb x; cuser := cuser x; cclone := p; cheld := Some s; ctmo := cidle (config (st w)) |} /\
+                cl_lookup c (clients w') = Some {| cdb := cdb x; cuser := cuser x; cclone := p; cheld := Some s; ctmo := cidle (config (st w)); cset := p |} /\
                 In {| sid := s; spool := p; sholder := Some c |} (servers w')
   | None => exists w', step hashf w (OBegin c) = (w', ObNoPool) /\ cl_lookup c (clients w') = None /\
                 st w' = st w /\ (forall y, In y (servers w') -> In y (servers w))
@@ -704,7 +705,7 @@ Lemma do_begin_winv : forall w c0 y w1 ob,
 Proof.
   intros w c0 y w1 ob SO CO _ D. unfold do_begin in D.
   destruct (plookup (cdb y, cuser y) (pools (st w))) as [[h p]|] eqn:Lp.
-  - assert (G : forall s t, clients_ok (objs w) (cl_set c0 {| cdb := cdb y; cuser := cuser y; cclone := p; cheld := s; ctmo := t |} (clients w))).
+  - assert (G : forall s t, clients_ok (objs w) (cl_set c0 {| cdb := cdb y; cuser := cuser y; cclone := p; cheld := s; ctmo := t; cset := p |} (clients w))).
     { intros s t c x L. destruct (Nat.eq_dec c c0) as [->|Hne].
       - rewrite cl_lookup_set_same in L. inversion L; subst. cbn. destruct (SO _ _ _ Lp) as [pd [A _]]. eauto.
       - rewrite cl_lookup_set_other in L by assumption. eauto. }
@@ -718,7 +719,7 @@ Lemma winv_step : forall w o w' ob, winv w -> step hashf w o = (w', ob) -> winv 
 Proof.
   intros w o w' ob [SO [[OK1 OK2] CO]] S. unfold step in S. destruct (step0 hashf w o) as [w1 ob1] eqn:S0.
   inversion S; subst. clear S. unfold winv. rewrite gc_st, gc_objs, gc_clients. change (next_pool (gc w1)) with (next_pool w1).
-  destruct o as [fo|c0 d u|c0|c0|c0|c0 ms|k|k|c0]; cbn [step0] in S0.
+  destruct o as [fo|c0 d u|c0|c0|c0|c0 ms|k|k|c0|k bi]; cbn [step0] in S0.
   - destruct (reload hashf (st w) fo (next_pool w)) as [[[s' r] n'] new] eqn:R. inversion S0; subst. cbn.
     destruct (reload_fresh _ _ _ _ _ _ _ R) as [F1 [F2 [F3 F4]]]. repeat split.
     + intros k h pid L. destruct (F4 _ _ _ L) as [X|[pd [X Y]]].
@@ -731,7 +732,7 @@ Proof.
     + intros c x L. destruct (CO _ _ L) as [pd A]. exists pd. apply in_or_app. auto.
   - destruct (cl_lookup c0 (clients w)) eqn:L0; [inversion S0; subst; repeat split; auto|].
     destruct (plookup (d, u) (pools (st w))) as [[h p]|] eqn:Lp; [|inversion S0; subst; repeat split; auto].
-    assert (G : clients_ok (objs w) (cl_set c0 {| cdb := d; cuser := u; cclone := p; cheld := None; ctmo := 0 |} (clients w))).
+    assert (G : clients_ok (objs w) (cl_set c0 {| cdb := d; cuser := u; cclone := p; cheld := None; ctmo := 0; cset := p |} (clients w))).
     { intros c x L. destruct (Nat.eq_dec c c0) as [->|Hne].
       - rewrite cl_lookup_set_same in L. inversion L; subst. cbn. destruct (SO _ _ _ Lp) as [pd [A _]]. eauto.
       - rewrite cl_lookup_set_other in L by assumption. eauto. }
@@ -767,6 +768,7 @@ Proof.
     destruct (negb (existsb (Nat.eqb c0) (waiting w))); [inversion S0; subst; repeat split; auto|].
     destruct (existsb (key_eqb (cdb y, cuser y)) (paused w)); [inversion S0; subst; repeat split; auto|].
     destruct (do_begin_winv (unwait w c0) _ _ _ _ SO CO (CO _ _ L0) S0) as [E1 [E2 [E3 E4]]]. rewrite E1, E2, E3. repeat split; auto.
+  - destruct (plookup k (pools (st w))) as [[h p]|]; inversion S0; subst; repeat split; auto.
 Qed.
 
 Lemma winv_empty : winv empty_world.
@@ -828,8 +830,9 @@ Proof.
   intros w o w' ob I A W K S. destruct (actor o) eqn:Ac.
   - assert (actor o <> None) by congruence. destruct (client_step_store _ _ _ _ S H) as [E1 [E2 _]].
     unfold agree. rewrite E1, E2. exact A.
-  - destruct o as [fo| | | | | |k|k|]; cbn in Ac; try discriminate.
+  - destruct o as [fo| | | | | |k|k| |k bi]; cbn in Ac; try discriminate.
     2,3: (unfold step in S; cbn [step0] in S; destruct (has_pool (st w) k); inversion S; subst; exact A).
+    2: (unfold step in S; cbn [step0] in S; destruct (plookup k (pools (st w))) as [[h p]|]; inversion S; subst; exact A).
     unfold step in S. cbn [step0] in S.
     destruct (reload hashf (st w) fo (next_pool w)) as [[[s' r] n'] new] eqn:R. inversion S; subst. clear S.
     unfold agree. rewrite gc_st, gc_objs. cbn [st objs].
@@ -863,7 +866,7 @@ Proof. intros d u. cbn. reflexivity. Qed.
 (** ------------------------------------------------------------------ world-level forms *)
 
 Lemma world_eta : forall w, {| st := st w; objs := objs w; next_pool := next_pool w; clients := clients w;
-                               servers := servers w; next_srv := next_srv w; validated := validated w; waiting := waiting w; paused := paused w |} = w.
+                               servers := servers w; next_srv := next_srv w; validated := validated w; bans := bans w; waiting := waiting w; paused := paused w |} = w.
 Proof. destruct w; reflexivity. Qed.
 
 Lemma invalid_noop_world : forall w fo, settled w -> invalid fo -> step hashf w (OReload fo) = (w, ObReload RErr).
@@ -914,7 +917,7 @@ Proof.
     intros k Hk. rewrite Ep in Hk. unfold has_pool. rewrite E. apply P. assumption.
   - unfold step in S. destruct (step0 hashf w o) as [w1 ob1] eqn:S0. inversion S; subst. clear S.
     intros k Hk. change (paused (gc w1)) with (paused w1) in Hk. rewrite gc_st.
-    destruct o as [fo| | | | | |k0|k0|]; cbn [step0 actor] in *; try discriminate.
+    destruct o as [fo| | | | | |k0|k0| |k0 bi]; cbn [step0 actor] in *; try discriminate.
     + destruct (reload hashf (st w) fo (next_pool w)) as [[[s' r] n'] new] eqn:R. inversion S0; subst. cbn [st paused] in *.
       destruct r as [|[|]|].
       * unfold has_pool. rewrite (reload_keeps_pools _ _ _ _ _ _ _ R) by congruence. apply P. assumption.
@@ -925,6 +928,7 @@ Proof.
       destruct Hk as [<-|Hk]; auto.
     + destruct (has_pool (st w) k0) eqn:H0; inversion S0; subst; cbn [st paused] in *; [|auto].
       apply filter_In in Hk. apply P. tauto.
+    + destruct (plookup k0 (pools (st w))) as [[h p]|]; inversion S0; subst; cbn [st paused] in *; auto.
 Qed.
 
 Lemma pinv_run : forall l w w' obs, pinv w -> run hashf w l = (w', obs) -> pinv w'.
@@ -959,8 +963,8 @@ Proof.
   - assert (Hc : actor o <> None) by congruence. destruct (client_step_store _ _ _ _ S Hc) as [A [B [C _]]]. auto.
   - unfold step in S. destruct (step0 hashf w o) as [w1 ob1] eqn:S0. inversion S; subst. clear S.
     rewrite gc_st, gc_objs. change (next_pool (gc w1)) with (next_pool w1).
-    destruct o as [fo| | | | | |k|k|]; cbn in Ac, Q; try discriminate; cbn [step0] in S0;
-      destruct (has_pool (st w) k); inversion S0; subst; auto.
+    destruct o as [fo| | | | | |k|k| |k bi]; cbn in Ac, Q; try discriminate; cbn [step0] in S0;
+      [destruct (has_pool (st w) k)|destruct (has_pool (st w) k)|destruct (plookup k (pools (st w))) as [[h p]|]]; inversion S0; subst; auto.
 Qed.
 
 Lemma quiet_run_store : forall l w w' obs, run hashf w l = (w', obs) -> Forall (fun o => is_reload o = false) l ->
@@ -976,7 +980,7 @@ Qed.
 Lemma do_begin_resolves : forall w c x,
   match begin_txn (st w) (cdb x) (cuser x) with
   | Some p => exists w' s f, do_begin w c x = (w', ObBegun p s f) /\
-                cl_lookup c (clients w') = Some {| cdb := cdb x; cuser := cuser x; cclone := p; cheld := Some s; ctmo := cidle (config (st w)) |} /\
+                cl_lookup c (clients w') = Some {| cdb := cdb x; cuser := cuser x; cclone := p; cheld := Some s; ctmo := cidle (config (st w)); cset := p |} /\
                 In {| sid := s; spool := p; sholder := Some c |} (servers w')
   | None => exists w', do_begin w c x = (w', ObNoPool) /\ cl_lookup c (clients w') = None /\
                 st w' = st w /\ servers w' = servers w
@@ -999,7 +1003,7 @@ Lemma wake_resolves : forall w c x,
   existsb (key_eqb (cdb x, cuser x)) (paused w) = false ->
   match begin_txn (st w) (cdb x) (cuser x) with
   | Some p => exists w' s f, step hashf w (OWake c) = (w', ObBegun p s f) /\
-                cl_lookup c (clients w') = Some {| cdb := cdb x; cuser := cuser x; cclone := p; cheld := Some s; ctmo := cidle (config (st w)) |} /\
+                cl_lookup c (clients w') = Some {| cdb := cdb x; cuser := cuser x; cclone := p; cheld := Some s; ctmo := cidle (config (st w)); cset := p |} /\
                 In {| sid := s; spool := p; sholder := Some c |} (servers w')
   | None => exists w', step hashf w (OWake c) = (w', ObNoPool) /\ cl_lookup c (clients w') = None /\
                 st w' = st w /\ (forall y, In y (servers w') -> In y (servers w))
@@ -1019,7 +1023,7 @@ Lemma start_resolves : forall w c x,
   existsb (key_eqb (cdb x, cuser x)) (paused w) = false ->
   match begin_txn (st w) (cdb x) (cuser x) with
   | Some p => exists w' s f, step hashf w (start_op w c) = (w', ObBegun p s f) /\
-                cl_lookup c (clients w') = Some {| cdb := cdb x; cuser := cuser x; cclone := p; cheld := Some s; ctmo := cidle (config (st w)) |} /\
+                cl_lookup c (clients w') = Some {| cdb := cdb x; cuser := cuser x; cclone := p; cheld := Some s; ctmo := cidle (config (st w)); cset := p |} /\
                 In {| sid := s; spool := p; sholder := Some c |} (servers w')
   | None => exists w', step hashf w (start_op w c) = (w', ObNoPool) /\ cl_lookup c (clients w') = None /\
                 st w' = st w /\ (forall y, In y (servers w') -> In y (servers w))
@@ -1036,7 +1040,7 @@ Lemma later_begin : forall w1 ops w2 obs cl x,
   existsb (key_eqb (cdb x, cuser x)) (paused w2) = false ->
   match begin_txn (st w1) (cdb x) (cuser x) with
   | Some p => exists w3 s f, step hashf w2 (start_op w2 cl) = (w3, ObBegun p s f) /\
-                cl_lookup cl (clients w3) = Some {| cdb := cdb x; cuser := cuser x; cclone := p; cheld := Some s; ctmo := cidle (config (st w1)) |} /\
+                cl_lookup cl (clients w3) = Some {| cdb := cdb x; cuser := cuser x; cclone := p; cheld := Some s; ctmo := cidle (config (st w1)); cset := p |} /\
                 In {| sid := s; spool := p; sholder := Some cl |} (servers w3)
   | None => exists w3, step hashf w2 (start_op w2 cl) = (w3, ObNoPool) /\ cl_lookup cl (clients w3) = None /\
                 st w3 = st w2 /\ (forall y, In y (servers w3) -> In y (servers w2))
@@ -1107,7 +1111,7 @@ Lemma changed_in_effect_txn : forall w c bo w1 ops w2 obs cl x pd us,
     In {| sid := s; spool := p; sholder := Some cl |} (servers w3) /\
     In (p, ((cdb x, cuser x), pd')) (objs w2) /\ hashf pd' = hashf pd /\
     (no_reuse (pools (st w)) (cdb x, cuser x) pd -> next_pool w <= p /\ pd' = pd) /\
-    cl_lookup cl (clients w3) = Some y /\ cclone y = p /\ ctmo y = cidle c.
+    cl_lookup cl (clients w3) = Some y /\ cclone y = p /\ cset y = p /\ ctmo y = cidle c.
 Proof.
   intros w c bo w1 ops w2 obs cl x pd us I W S F R L Hh Np Lc Hu.
   destruct (changed_in_effect _ _ _ _ I W S) as [Ec CE]. specialize (CE (cdb x) (cuser x)).
@@ -1187,6 +1191,87 @@ Proof.
   apply filter_In in Hin. destruct Hin as [_ Hin]. congruence.
 Qed.
 
+(** ------------------------------------------------------------------ what else a reload leaves alone *)
+
+(** a reload that does not answer Ok(true) — unreadable, invalid, unchanged, build failed, build panicked — leaves the
+    registered pools, the pause flags, the ban lists, the clients and the waiters exactly as they were *)
+Lemma refused_reload_keeps_flags : forall w fo w' r, step hashf w (OReload fo) = (w', ObReload r) -> r <> ROk true ->
+  pools (st w') = pools (st w) /\ paused w' = paused w /\ bans w' = bans w /\ clients w' = clients w /\ waiting w' = waiting w.
+Proof.
+  intros w fo w' r S NR. unfold step in S. cbn [step0] in S.
+  destruct (reload hashf (st w) fo (next_pool w)) as [[[s' r0] n'] new] eqn:R. inversion S; subst. clear S.
+  rewrite gc_st, gc_clients. cbn. split; [eapply reload_keeps_pools; eauto|].
+  destruct r as [|[|]|]; try congruence; auto.
+Qed.
+
+(** ban lists belong to pool objects: no reload, whatever its result, touches them ... *)
+Lemma reload_keeps_bans : forall w fo w' ob, step hashf w (OReload fo) = (w', ob) -> bans w' = bans w.
+Proof.
+  intros w fo w' ob S. unfold step in S. cbn [step0] in S.
+  destruct (reload hashf (st w) fo (next_pool w)) as [[[s' r] n'] new]. inversion S; subst. reflexivity.
+Qed.
+
+Definition binv (w : world) : Prop := forall p i, In (p, i) (bans w) -> p < next_pool w.
+
+Lemma binv_step : forall w o w' ob, winv w -> binv w -> step hashf w o = (w', ob) -> binv w'.
+Proof.
+  intros w o w' ob I B S. destruct (is_reload o) eqn:Q.
+  - destruct o as [fo| | | | | | | | |]; try discriminate. intros p i Hin. rewrite (reload_keeps_bans _ _ _ _ S) in Hin.
+    unfold step in S. cbn [step0] in S. destruct (reload hashf (st w) fo (next_pool w)) as [[[s' r] n'] new] eqn:R. inversion S; subst.
+    destruct (reload_fresh _ _ _ _ _ _ _ R) as [F1 _]. change (next_pool (gc ?x)) with (next_pool x). cbn. specialize (B _ _ Hin). lia.
+  - destruct (quiet_step_store _ _ _ _ S Q) as [_ [_ En]]. intros p i Hin. rewrite En.
+    unfold step in S. destruct (step0 hashf w o) as [w1 ob1] eqn:S0. inversion S; subst. change (bans (gc w1)) with (bans w1) in Hin.
+    unfold binv in B.
+    destruct o as [fo|c0 d u|c0|c0|c0|c0 ms|k|k|c0|k bi]; try discriminate; cbn [step0] in S0.
+    + destruct (cl_lookup c0 (clients w)); [inversion S0; subst; eauto|].
+      destruct (plookup (d, u) (pools (st w))) as [[h q]|]; [|inversion S0; subst; eauto].
+      destruct (existsb (Nat.eqb q) (validated w)); inversion S0; subst; eauto.
+    + destruct (cl_lookup c0 (clients w)) as [y|]; [|inversion S0; subst; eauto].
+      destruct (cheld y); [inversion S0; subst; eauto|].
+      destruct (existsb (Nat.eqb c0) (waiting w)); [inversion S0; subst; eauto|].
+      destruct (existsb (key_eqb (cdb y, cuser y)) (paused w)); [inversion S0; subst; eauto|].
+      destruct (plookup (cdb y, cuser y) (pools (st w))) as [[h q]|]; [|inversion S0; subst; eauto].
+      destruct (take_idle q c0 (servers w)) as [[s l']|]; inversion S0; subst; eauto.
+    + destruct (cl_lookup c0 (clients w)) as [y|]; [|inversion S0; subst; eauto].
+      destruct (cheld y); inversion S0; subst; eauto.
+    + destruct (cl_lookup c0 (clients w)) as [y|]; inversion S0; subst; eauto.
+    + destruct (cl_lookup c0 (clients w)) as [y|]; [|inversion S0; subst; eauto].
+      destruct (cheld y); [|inversion S0; subst; eauto].
+      destruct (negb (ctmo y =? 0) && (ctmo y <=? ms)); inversion S0; subst; eauto.
+    + destruct (has_pool (st w) k); inversion S0; subst; eauto.
+    + destruct (has_pool (st w) k); inversion S0; subst; eauto.
+    + destruct (cl_lookup c0 (clients w)) as [y|]; [|inversion S0; subst; eauto].
+      destruct (negb (existsb (Nat.eqb c0) (waiting w))); [inversion S0; subst; eauto|].
+      destruct (existsb (key_eqb (cdb y, cuser y)) (paused w)); [inversion S0; subst; eauto|].
+      unfold do_begin in S0. cbn [unwait st servers] in S0.
+      destruct (plookup (cdb y, cuser y) (pools (st w))) as [[h q]|]; [|inversion S0; subst; eauto].
+      destruct (take_idle q c0 (servers w)) as [[s l']|]; inversion S0; subst; eauto.
+    + destruct (plookup k (pools (st w))) as [[h q]|] eqn:L; inversion S0; subst; eauto. cbn in Hin.
+      destruct Hin as [E|Hin]; eauto. inversion E; subst.
+      destruct I as [SO [[OK1 _] _]]. destruct (SO _ _ _ L) as [pd [A _]]. eapply OK1; eauto.
+Qed.
+
+Lemma binv_run : forall l w w' obs, winv w -> binv w -> run hashf w l = (w', obs) -> binv w'.
+Proof.
+  induction l as [|o t IH]; intros w w' obs I B R; cbn in R.
+  - inversion R; subst. assumption.
+  - destruct (step hashf w o) as [w1 ob] eqn:S. destruct (run hashf w1 t) as [w2 obs2] eqn:R2. inversion R; subst.
+    apply (IH w1 w' obs2); [eapply winv_step; eauto|eapply binv_step; eauto|assumption].
+Qed.
+
+(** ... and an object built by a reload starts with an empty list: per (pool, user) after ANY reload, either the
+    registered object is the one that was registered before (its bans stay), or it has no ban at all *)
+Lemma rebuilt_pool_no_bans : forall w fo w' ob k h p,
+  binv w -> step hashf w (OReload fo) = (w', ob) -> plookup k (pools (st w')) = Some (h, p) ->
+  plookup k (pools (st w)) = Some (h, p) \/ (forall i, ~ In (p, i) (bans w')).
+Proof.
+  intros w fo w' ob k h p B S L. rewrite (reload_keeps_bans _ _ _ _ S).
+  unfold step in S. cbn [step0] in S. destruct (reload hashf (st w) fo (next_pool w)) as [[[s' r] n'] new] eqn:R. inversion S; subst.
+  rewrite gc_st in L. cbn [st] in L. destruct (reload_fresh _ _ _ _ _ _ _ R) as [_ [F2 [_ F4]]].
+  destruct (F4 _ _ _ L) as [X|[pd [_ Y]]]; [left; assumption|right].
+  intros i Hin. apply F2 in Y. apply B in Hin. lia.
+Qed.
+
 End WithHash.
 
 (** ------------------------------------------------------------------ witnesses (hash = identity) *)
@@ -1238,6 +1323,9 @@ Proof. intros hashf ops w obs R. eapply winv_run; eauto. apply winv_empty. Qed.
 
 Lemma pinv_every_run : forall hashf ops w obs, run hashf empty_world ops = (w, obs) -> pinv w.
 Proof. intros hashf ops w obs R. eapply pinv_run; eauto. apply pinv_empty. Qed.
+
+Lemma binv_every_run : forall hashf ops w obs, run hashf empty_world ops = (w, obs) -> binv w.
+Proof. intros hashf ops w obs R. eapply binv_run; eauto. apply winv_empty. intros p i []. Qed.
 
 Lemma config_pools_agree : forall hashf ops w obs,
   Forall op_wf ops -> existsb op_known_panic ops = false ->
